@@ -496,6 +496,22 @@ func GenStream(t *rapid.T, maxReqs int, o ReqOpts) *Stream {
 		if last {
 			if rapid.IntRange(0, 2).Draw(t, "closeLast") == 0 {
 				SetClose(r)
+				if o.TabOWS && r.Proto != "HTTP/1.0" && rapid.IntRange(0, 2).Draw(t, "closeSpelledOtherwise") == 0 {
+					// the close option is a case-insensitive token in a list that may span lines (RFC 7230 6.1)
+					r.Lines = r.Lines[:len(r.Lines)-1]
+					switch rapid.IntRange(0, 4).Draw(t, "closeSpelling") {
+					case 0:
+						r.Lines = append(r.Lines, wire.KV{K: "Connection", V: "Close"})
+					case 1:
+						r.Lines = append(r.Lines, wire.KV{K: "Connection", V: "CLOSE"})
+					case 2:
+						r.Lines = append(r.Lines, wire.KV{K: "Connection", V: "X-Hop, close"})
+					case 3:
+						r.Lines = append(r.Lines, wire.KV{K: "Connection", V: "close ,\tX-Hop"})
+					case 4:
+						r.Lines = append(r.Lines, wire.KV{K: "Connection", V: "close"}, wire.KV{K: "Connection", V: "X-Hop"})
+					}
+				}
 			} else if r.Proto == "HTTP/1.0" {
 				r.Close = true
 			}
